@@ -306,6 +306,38 @@ def add_targets(E, spec, pid):
         return r
     M["cryptography.x509.load_der_x509_certificate"] = load2
 
+    # ---- representation invariant behind mk_client ---------------------------------------------------------------
+    # The targets start from "the state the real __init__ leaves, containers filled arbitrarily".  That covers every history of
+    # calls on one client only if no OTHER code re-binds an attribute __init__ sets (tofu_db, trust_on_first_use, verify_ssl,
+    # ssl_context, timeout, ...): a frame condition, decided on the AST of the whole package - an attribute of a GeminiClient can
+    # only be re-bound by an attribute store / delete, setattr/delattr, or through __dict__/vars().
+    def client_frame(E):
+        import ast as _ast
+        mod, cls, init = E.repo.find(f"{CL}.__init__")
+        fields = {t.attr for n in _ast.walk(init) for t in ([n.target] if isinstance(n, (_ast.AnnAssign, _ast.AugAssign)) else getattr(n, "targets", []) if isinstance(n, _ast.Assign) else [])
+                  if isinstance(t, _ast.Attribute) and isinstance(t.value, _ast.Name) and t.value.id == "self"}
+        if not fields:
+            raise Unsupported("GeminiClient.__init__ assigns no attribute")
+        bad = []
+        for name, m in E.repo.modules_under("nauyaca.client") + E.repo.modules_under("nauyaca.server.proxy") + E.repo.modules_under("nauyaca.__main__"):
+            for fn in [n for n in _ast.walk(m.tree) if isinstance(n, (_ast.FunctionDef, _ast.AsyncFunctionDef))]:
+                if fn is init:
+                    continue
+                inner = [x for n in fn.body for x in _ast.walk(n)]
+                for n in inner:
+                    if isinstance(n, _ast.Attribute) and isinstance(n.ctx, (_ast.Store, _ast.Del)) and n.attr in fields and name.endswith("client.session"):
+                        bad.append(f"{name}:{fn.name} line {n.lineno}: re-binds .{n.attr}")
+                    elif isinstance(n, _ast.Attribute) and isinstance(n.ctx, (_ast.Store, _ast.Del)) and n.attr in ("tofu_db", "trust_on_first_use", "verify_ssl", "ssl_context"):
+                        bad.append(f"{name}:{fn.name} line {n.lineno}: re-binds .{n.attr}")
+                    elif name.endswith("client.session") and isinstance(n, _ast.Call) and isinstance(n.func, _ast.Name) and n.func.id in ("setattr", "delattr", "vars"):
+                        bad.append(f"{name}:{fn.name} line {n.lineno}: {n.func.id}()")
+                    elif name.endswith("client.session") and isinstance(n, _ast.Attribute) and n.attr in ("__dict__", "__setattr__", "__delattr__"):
+                        bad.append(f"{name}:{fn.name} line {n.lineno}: .{n.attr}")
+        bad = sorted(set(bad))
+        return (not bad), (f"no code outside GeminiClient.__init__ re-binds one of the {len(fields)} attributes it sets ({', '.join(sorted(fields))})" if not bad else "; ".join(bad[:6]))
+    if pid in ("C03", "C11", "C13", "C16"):
+        spec.syntactic.append((f"[{pid}] frame: the client's configuration (trust store handle, TOFU / verification switches, TLS context, limits) is what __init__ set, for the whole life of the object - no other code re-binds it", client_frame))
+
     if not hasattr(spec, "event_contracts"):
         spec.event_contracts = {}
     spec.event_contracts[f"{CL}._get_single"] = c_gs
